@@ -125,16 +125,17 @@ impl ParserState {
                     // a member is a memberAttrName followed by one or more values
                     let mut map: BTreeMap<String, IppValue> = BTreeMap::new();
                     let mut member: Option<(String, Vec<IppValue>)> = None;
-                    for item in arr.iter() {
+                    for item in arr {
                         if let IppValue::MemberAttrName(k) = item {
                             if let Some((name, values)) = member.take() {
                                 if !values.is_empty() {
                                     map.insert(name, list_or_value(values));
                                 }
                             }
-                            member = Some((k.to_string(), Vec::new()));
+                            member = Some((k, Vec::new()));
                         } else if let Some((_, ref mut values)) = member {
-                            values.push(item.clone());
+                            // move, do not copy: copying re-copies nested collections at every level
+                            values.push(item);
                         }
                     }
                     if let Some((name, values)) = member.take() {
